@@ -403,10 +403,13 @@ def checkBox (dim : Nat) (s : OState) : Option String :=
   | some k => some s!"spec:A root-aabb-axis-{k}"
   | none => if s.q = 1 then none else some "qbvh-differs-from-fresh"
 
-/-- some triangle is (nearly) flat: `|ab × ac|² ≤ 1e-12 · (longest edge)⁴`.  After a `transform_vertices` such a triangle is
-rounding-sensitive: an exactly degenerate triangle (`Triangle::normal() = None`) is no longer exactly degenerate in the
-rotated frame and a fresh build gives it a unit normal made of rounding noise, while the exact model (and the rotated cached
-data) say `None`.  The pseudo-normal comparison is skipped on these states (DESIGN §3, rounding-sensitive inputs). -/
+/-- some triangle is rounding-sensitive for `Triangle::normal()`: it is (nearly) flat, `|ab × ac|² ≤ 1e-12 · (longest edge)⁴`,
+and its cross product is not computed exactly in binary64 (two corners do not coincide, and the coordinates are not all
+small multiples of 1/8).  For such a triangle the exact value of the normal is `None` or meaningless, while the floating
+point value is a unit vector made of rounding noise that differs between the cached data (computed in another frame or
+with the vertices in another order) and a fresh build.  The exact model and the Float model take different branches: the
+pseudo-normal comparison is skipped on these states (DESIGN §3, rounding-sensitive inputs); everything else is still
+compared, and the model/implementation correspondence stays bit-exact. -/
 def nearlyFlat (s : OState) : Bool :=
   s.idx.any fun t =>
     match s.coords[t.a]?, s.coords[t.b]?, s.coords[t.c]? with
@@ -417,12 +420,15 @@ def nearlyFlat (s : OState) : Bool :=
       let C : V3 Rat := ⟨q (c.getD 0 0), q (c.getD 1 0), q (c.getD 2 0)⟩
       let n2 := ((B.sub A).cross (C.sub A)).normSq
       let m := max (max (B.sub A).normSq (C.sub A).normSq) (C.sub B).normSq
-      decide (n2 * 1000000000000 ≤ m * m)
+      let coincide := decide (A.x = B.x ∧ A.y = B.y ∧ A.z = B.z) || decide (A.x = C.x ∧ A.y = C.y ∧ A.z = C.z) ||
+        decide (B.x = C.x ∧ B.y = C.y ∧ B.z = C.z)
+      let exact := [A.x, A.y, A.z, B.x, B.y, B.z, C.x, C.y, C.z].all fun x => decide ((x * 8).den = 1) && decide (rabs x ≤ 1024)
+      decide (n2 * 1000000000000 ≤ m * m) && !coincide && !exact
     | _, _, _ => false
 
-def judgeState (dim3 : Bool) (s : OState) (afterTransform : Bool := false) : Option String :=
+def judgeState (dim3 : Bool) (s : OState) : Option String :=
   let dropPN (fs : List String) : List String :=
-    if afterTransform && nearlyFlat s then fs.filter (fun f => f != "Pv" && f != "Pe") else fs
+    if nearlyFlat s then fs.filter (fun f => f != "Pv" && f != "Pe") else fs
   let g : Option String := match s.der with
     | none => none
     | some d => match dropPN (diffDerived s.d d) with
@@ -480,7 +486,7 @@ def oracleHist {V} (dim : Nat) (dim3 : Bool) (m : RawMesh V) (ops : List (RawOp 
         match run (pstate dim) (stripRes seg) with
         | none => s!"fail step={k} hist={hist} unparsable-output"
         | some s =>
-          match judgeState dim3 s ((hist.splitOn ">").contains "tv") with
+          match judgeState dim3 s with
           | some e => s!"fail step={k} hist={hist} {e}"
           | none => go rest nms (k + 1) hist (judged + 1)
     | _ :: _, [] => "fail more-segments-than-ops"
